@@ -151,6 +151,7 @@ func runNav(o opts) error {
 	run("corpus:prev-at-0", []string{"root", "foo"}, 2, 0, 3, []string{"<", ">", "<", "<"})
 	run("corpus:top-at-entry-keeps-idx", []string{"root"}, 1, 3, 2, []string{"^", "foo", ">", "^", "^"})
 	run("corpus:empty-state", nil, 0, 0, 1, []string{"^", ".", ">", "<", "_", "x", "", "root", "root"})
+	// a move to the current node: refused with an error since b32c1a0 (used to panic in State.Down)
 	run("corpus:same-node", []string{"root", "foo"}, 2, 2, 3, []string{"foo", ".", "bar", "bar", "_", "foo"})
 	run("corpus:maxlevel", []string{"aa", "bb"}, 127, 0, 128, []string{"foo", "bar", "foo", "bar", "foo", "_", "_", "bar", "baz", "^"})
 	run("corpus:maxlevel-over", []string{"aa", "bb"}, 131, 1, 132, []string{"foo", ">", "_", "_", "_", "foo", "bar", "^"})
